@@ -500,8 +500,10 @@ def text_key(t):
     return [int(x) for x in t.split(".") if x]
 
 
-def expected_candidates(sys_, usr, key):
-    out = sorted(sys_.get(key, {}), key=text_key)
+def expected_candidates(sys_, usr, key, file_order=False):
+    # an in-memory system dictionary (TrieBuf) answers in the order of the phrase text; a trie FILE (capi cases) in its
+    # leaf order, which is the order the case setup lists the entries of a key in
+    out = list(sys_.get(key, {})) if file_order else sorted(sys_.get(key, {}), key=text_key)
     out += [t for t in sorted(usr.get(key, {}), key=text_key) if t not in sys_.get(key, {})]
     return out
 
@@ -514,12 +516,17 @@ def c07(cases, res):
         # the phonetic layout in effect (setup line LAYOUT, `layout k` ops): Hsu (1) and ET26 (5) add the words of a
         # syllable's alternative readings to its one-syllable list ("defined to include that reading's characters")
         layout = 0
+        capi = any(l == "CAPI" for l in case["setup"])
         for l in case["setup"]:
             if l.startswith("LAYOUT "):
                 layout = int(l.split()[1])
         for i, prev, s in steps_with_prev(case):
             if s.op and s.op[0] == "layout":
                 layout = int(s.op[1])
+            if s.op and s.op[0] == "kbtype":
+                # chewing_set_KBType: KB_HSU (1) and KB_DVORAK_HSU (7) are Hsu, KB_ET26 (5) is ET26; the others
+                # (and every unknown number: the default layout) have no alternative readings
+                layout = {1: 1, 7: 1, 5: 5}.get(int(s.op[1]), 0)
             o = opts_of(s)
             per = o[7]
             if state_of(s) == "Selecting" and s.obs and s.obs.get("cands", "-") not in ("-", "PANIC"):
@@ -542,7 +549,7 @@ def c07(cases, res):
                         out.append(fail("range-covers-non-syllable", case, i, "range %d-%d over %s" % (b, e, syms)))
                         continue
                     key = ".".join(x[1:] for x in syms[b:e])
-                    exp = expected_candidates(sys_, user_dict_of(s), key)
+                    exp = expected_candidates(sys_, user_dict_of(s), key, file_order=capi)
                     if layout in (1, 5) and e - b == 1 and cands[:len(exp)] == exp:
                         # the rest: words of one-syllable keys (the alternative readings; which readings is the
                         # layout's table, compared exactly by the model correspondence), each once
